@@ -2,6 +2,9 @@ import GS.Model.Requestor
 import GSProofs.Lemmas.RequestorLocal
 import GSProofs.C24
 import GSProofs.Lemmas.LoaderKahn
+import GSProofs.Lemmas.LoaderSched
+import GSProofs.Lemmas.LoaderComplete
+import GS.Model.Responder
 /-!
 # C02 — A single request retrieves every block that either peer can supply
 
@@ -13,16 +16,18 @@ import GSProofs.Lemmas.LoaderKahn
 
 Status of this file (see `STATUS.md`):
 
-* proved: `local_complete` (the requestor's own store suffices), `stored` (every block obtained from
-  the responder is stored — for every message list), `still_on_iff` (the repaired path tracker:
-  prefix, not length), the regression `pathtracker_sibling`, and two **counterexamples** showing that
-  the full-strength statement is false of the code as it is (known findings `skip-prefix-mismatch`
-  and `root-not-found-abort`), each an evaluation of the model that the correspondence check ties
-  to the real code (`corpus/C02/requestor/known.cases`).
-* order independence: the two local diamonds `kahn_done`, `kahn_parked` are proved (one ingest
-  against one load), plus `kahn_counterexample_retry`; the statement over whole interleavings is not
-  mechanised.
-* NOT proved: `complete_partial` (statement at the end of the file).
+* proved, full strength in their region: `local_complete` (the requestor's own store covers the
+  traversal) and `complete_remote_start` (the requestor does not hold the root, so there is no
+  locally loaded prefix: against the honest response the loader's answers are exactly the reference
+  traversal `refTrav`, every fetched block stored) — for all well-formed link trees and stores;
+  `stored`; `still_on_iff` / `pathtracker_sibling` (repaired path tracker);
+  order independence `kahn_schedule` (whole interleavings) from `kahn_done` / `kahn_parked`.
+* proved counterexamples to the full-strength statement, with the responder's messages computed by
+  `Responder.respondSpec` (honest by construction): `counterexample_skip_prefix`,
+  `counterexample_root_not_found` (known findings).
+* NOT proved: the remaining region of `complete_partial` — requestor holds the root (non-empty local
+  prefix), not covered, responder holds the root, no needed block inside the skipped window: needs
+  the verifier replay over the traversal record (statement at the end of the file).
 -/
 namespace GS.C02
 open GS.Loader GS.Requestor
@@ -87,47 +92,50 @@ theorem pathtracker_sibling :
 
 /-! ## the full-strength statement is false of the code as it is: two counterexamples
 
-Honest responder stream for a responder store `rem` and skip value `k` (what
-`queryexecutor` + `peerLinkTracker` produce, property C03): one item per link the responder
-traverses, `present` iff it holds the block, block attached iff present ∧ index > k ∧ first
-occurrence.  The two examples below use streams of that form. -/
+The responder's messages below are not hand-written: they are `ofSpec (respondSpec …)`, the output
+of the responder specification to which the operational responder model is proved equal for every
+batching (`C03.refines`), for the given link tree, responder store and requested skip value. -/
+
+/-- the wire message carrying a whole response of the responder specification -/
+def ofSpec (r : List GS.Responder.Item × GS.Responder.Status) : Msg :=
+  ⟨true, true, r.2.code,
+   r.1.map (fun it => (it.cid, if it.present then Action.present else Action.missing)),
+   r.1.filterMap (fun it => if it.block then some (it.cid, it.cid) else none)⟩
 
 /-- **C02.counterexample (skip-prefix-mismatch).**  Link tree: root 6 with children 1 (at `0/1`, with
-    two children 0) and 4 (at `4`).  The requestor holds 6, 1, 0; the responder holds 6, 4 and more
-    but not 1.  The requestor loads 6, 1, 0, 0 locally and asks to skip 4 blocks; the responder's
-    traversal is 6, 1 (missing), 4 — three links, all within the skipped window — so block 4 is
-    "present, not sent".  The requestor reports
-    link 4 missing although the responder holds it on a path it traverses
+    two children 0) and 4 (at `4`).  The requestor holds 6, 1, 0; the responder holds 2..6 but not 1.
+    The requestor loads 6, 1, 0, 0 locally and asks to skip 4 blocks; the responder's traversal is
+    6, 1 (missing), 4 — all within the skipped window — so block 4 is "present, not sent".  The
+    requestor reports link 4 missing although the responder holds it on a path it traverses
     (`corpus/C02/requestor/known.cases`, second case). -/
 theorem counterexample_skip_prefix :
     let lt : LT := [⟨6, [], 0, 2, 0⟩, ⟨1, [0, 1], 1, 1, 1⟩, ⟨0, [0, 1, 2], 2, 1, 0⟩, ⟨0, [0, 1, 3], 2, 3, 2⟩, ⟨4, [4], 1, 1, 0⟩]
-    let msgs : List Msg := [⟨true, true, 21, [(6, .present), (1, .missing), (4, .present)], []⟩]
-    Ev.err (.load (.missing 4 [4])) ∈ (exchange [(0, 0), (1, 1), (6, 6)] lt 0 msgs).2 ∧
-    sentNews (exchange [(0, 0), (1, 1), (6, 6)] lt 0 msgs).2 = [4] := by decide
+    let tree : GS.Responder.LT := .node 6 [.node 1 [.node 0 [], .node 0 []], .node 4 []]
+    let resp := GS.Responder.respondSpec tree (fun c => [2, 3, 4, 5, 6].contains c) { skip := 4 } (fun _ => false)
+    let evs := (exchange [(0, 0), (1, 1), (6, 6)] lt 0 [ofSpec resp]).2
+    sentNews evs = [4] ∧ Ev.err (.load (.missing 4 [4])) ∈ evs := by decide
 
 /-- **C02.counterexample (root-not-found-abort).**  The requestor holds the root 5 but not its child
-    2; the responder holds nothing and answers `RequestFailedContentNotFound` (34).  The request ends
-    with that status error; the missing link at path `0` is never reported as a missing block
-    (`corpus/C02/requestor/known.cases`, first case). -/
+    2; the responder holds nothing: its response is one `missing` entry for the root with status
+    `RequestFailedContentNotFound`.  The request ends with that status error; the link at path `0`
+    is never reported as a missing block (`corpus/C02/requestor/known.cases`, first case). -/
 theorem counterexample_root_not_found :
     let lt : LT := [⟨5, [], 0, 1, 0⟩, ⟨2, [0], 1, 2, 1⟩]
-    let msgs : List Msg := [⟨true, true, 14, [(5, .missing)], []⟩, ⟨true, true, 34, [], []⟩]
-    (exchange [(5, 5)] lt 0 msgs).2 =
+    let resp := GS.Responder.respondSpec (.node 5 [.node 2 []]) (fun _ => false) { skip := 1 } (fun _ => false)
+    (exchange [(5, 5)] lt 0 [ofSpec resp]).2 =
       [.block 5 [] true 1, .prog 1, .sentNew 1, .err (.status 34)] := by decide
-
 
 /-! ## order independence of `IngestResponse` and loads (C02.kahn)
 
 `Sim s t` (Lemmas/LoaderKahn.lean): `s` and `t` agree on everything except `lastConsumed` / its
 `next` pointer (read only by `RetryLastLoad`) and the parked-load marker.
 
-Full statement (NOT proved as a whole): for a traversal that never calls `RetryLastLoad` on a load
-that used the remote queue (the executor outside pause/resume), the list of load results depends
-only on the sequence of `IngestResponse` calls (and the moment of the closing `SetRemoteOnline(false)`
-relative to them), not on how they interleave with the loads.  Proved below: the two local diamonds
-from which it follows by induction over the interleaving — one ingest against one load that can be
-answered, and one ingest against one load that has to wait.  `kahn_counterexample_retry` shows
-that the restriction on `RetryLastLoad` is necessary (the code's linked list loses items there). -/
+Proved: the two local diamonds (`kahn_done`, `kahn_parked`) and, from them, `kahn_schedule` over
+whole interleavings of message deliveries and client steps, for any deterministic traversal client
+that never calls `RetryLastLoad` on a load that used the remote queue (the executor outside
+pause/resume).  Not covered: the position of the closing `SetRemoteOnline(false)` relative to the
+loads (it is not an event of these schedules).  `kahn_counterexample_retry` shows that the
+restriction on `RetryLastLoad` is necessary (the code's linked list loses items there). -/
 
 /-- **C02.kahn, load that can be answered.**  On an open loader whose queue tail is intact, if a load
     completes with result `r`, then ingesting a message first and loading afterwards gives the same
@@ -165,24 +173,82 @@ theorem kahn_counterexample_retry :
     (runOps {} [.online true, .ingest [(0, .present)] [(0, 0)], .ingest [(1, .present)] [(1, 1)], .load 0 [],
                 .retry, .load 1 [0]]).2.map GS.C01.result := by decide
 
+/-- **C02.kahn (whole interleavings).**  A traversal client — any function from the load results
+    so far to the next load — runs against a loader whose queue tail is intact while response
+    messages arrive.  Every valid schedule (the client steps only while no load of its is parked)
+    ends, up to the retry bookkeeping of the queue, in the same loader state and with the same list
+    of load results as the schedule that delivers the same messages in the same order first and lets
+    the client take the same number of steps afterwards: the result depends only on the sequence of
+    remote messages, not on the interleaving. -/
+theorem kahn_schedule (next : Client) (evs : List Evt) (c : Cfg) (hg : Good c) (hv : Valid next c evs) :
+    Eqv (runE next c evs) (runE next c (msgsOf evs ++ List.replicate (ticksOf evs) .tick)) :=
+  GS.Loader.kahn_schedule next evs c hg hv
+
+/-- two valid schedules with the same messages (in order) and the same number of client steps agree -/
+theorem kahn_same_messages (next : Client) (e1 e2 : List Evt) (c : Cfg) (hg : Good c)
+    (h1 : Valid next c e1) (h2 : Valid next c e2) (hm : msgsOf e1 = msgsOf e2) (ht : ticksOf e1 = ticksOf e2) :
+    Eqv (runE next c e1) (runE next c e2) := by
+  have a := GS.Loader.kahn_schedule next e1 c hg h1
+  have b := GS.Loader.kahn_schedule next e2 c hg h2
+  rw [hm, ht] at a
+  exact Eqv.trans a b.symm
+
+/-! ## completeness against the honest responder -/
+
+/-- **C02.complete, no locally loaded prefix** (`Lemmas/LoaderComplete.lean`): see
+    `GS.Loader.complete_remote_start`.  `respItems rem lt []` is the honest response for skip 0
+    (the definition of `Responder.respondSpec` transcribed to the pre-order link tree: one entry per
+    link the responder's own traversal visits, block attached to the first present occurrence);
+    `refTrav rem lt loc none` is the reference traversal: a link is available iff the requestor's
+    store (growing by what it fetched) holds it, or the responder holds it and followed every
+    ancestor. -/
+theorem complete_remote_start (rem : Cid → Bool) (loc : List (Cid × Blk)) (root : LNode) (rest : LT)
+    (hwf : WF (root :: rest)) (hne : ∀ m ∈ rest, m.path ≠ []) (hroot : holds loc root.cid = false) :
+    let items := respItems rem (root :: rest) []
+    let s4 := afterResponse loc root (mdOf items) (blocksOfItems items)
+    Loader.retry s4 = Loader.load { s4 with mra := none } root.path root.cid ∧
+    (walk { s4 with mra := none } (root :: rest)).1 = (refTrav rem (root :: rest) loc none).1 ∧
+    ∀ c, holds (walk { s4 with mra := none } (root :: rest)).2.store c =
+         holds (refTrav rem (root :: rest) loc none).2 c :=
+  GS.Loader.complete_remote_start rem loc root rest hwf hne hroot
+
+/-- non-vacuity of `complete_remote_start`: a well-formed tree with an inline sibling, a gap at the
+    responder and a block only the requestor holds; and `respItems` agrees with `respondSpec` on it -/
+example :
+    let lt : LT := [⟨9, [], 0, 0, 0⟩, ⟨1, [0, 1], 1, 0, 0⟩, ⟨3, [0, 1, 0], 2, 0, 0⟩, ⟨2, [0, 2, 3], 1, 0, 0⟩]
+    WF lt ∧ (∀ m ∈ lt.tail, m.path ≠ []) ∧ holds [(3, 3)] 9 = false ∧
+    (refTrav (fun c => [9, 2].contains c) lt [(3, 3)] none).1.map (fun x => (x.1.cid, x.2)) =
+      [(9, true), (1, false), (2, true)] ∧
+    (respItems (fun c => [9, 2].contains c) lt []).map (fun it => (it.link, it.action == .present, it.block.isSome)) =
+      (GS.Responder.respondSpec (.node 9 [.node 1 [.node 3 []], .node 2 []]) (fun c => [9, 2].contains c) {} (fun _ => false)).1.map
+        (fun it => (it.cid, it.present, it.block)) := by
+  refine ⟨?_, by decide, by decide, ?_, ?_⟩
+  · simp only [WF, subOf, skipSub]
+    decide
+  · simp [refTrav.eq_def, holds, storeGet, dead1, skipSub]
+  · simp [respItems, skipSub]
+    decide
+
 /-
-## NOT proved: the general completeness theorem
+## NOT proved: the remaining region of the completeness theorem
 
-  theorem complete_partial (lt : LT) (loc rem : store) (batching of the honest stream into messages)
-      (hWF  : lt is the pre-order of a tree: depths/paths consistent)
-      (hpre : the responder holds every block of the requestor's local DFS prefix, or more precisely
-              the first N links of the responder's own traversal are that prefix (no window overrun),
-              and holds the root if the requestor does)
-      (hmsgs : msgs = the honest stream for (lt, rem, skip = |local prefix|) in any batching,
-               last message terminal) :
-    the events of `exchange loc lt 0 msgs` are exactly `refTrav lt loc rem`:
-      loads answered with data = the nodes available from `loc` (growing by what was fetched) or from
-      `rem` below nodes the responder followed, in order; `missing` errors exactly for the others;
-      every block attached by the responder and needed is written.
+  theorem complete_partial (lt : LT) (loc rem : store) (hWF : WF lt)
+      (hcls1 : ¬ (requestor holds the root ∧ responder lacks the root ∧ loc does not cover lt))   -- class root-not-found-abort
+      (hcls2 : no link among the first N = |local prefix| links of the responder's own traversal lies
+               beyond the requestor's local prefix, is held by the responder and not by the requestor)
+                                                                                      -- class skip-prefix-mismatch
+      (hmsgs : msgs = the honest response `respondSpec` for (lt, rem, skip = N), in any batching) :
+    the loads of the exchange are exactly `refTrav lt loc rem`, missing-block errors exactly for its
+    undelivered links, every block obtained from the responder stored.
 
-The excluded regions are inhabited: `counterexample_skip_prefix`, `counterexample_root_not_found`.
-What stands in for the proof today is the reference-traversal oracle over the real code
-(streams `loader`, `requestor`, `exchange`; every 2-colouring of small DAGs in the thorough tier).
+Proved instances: `local_complete` (loc covers lt) and `complete_remote_start` (N = 0: the requestor
+lacks the root; includes the case that the responder lacks it too).  Open: N > 0 — after the local
+prefix the loader re-verifies the traversal record against the response (`traversalrecord.Verifier`);
+the proof needs the correspondence between the path trie built by `RecordNextStep` and the
+pre-order link tree.  The excluded classes are inhabited: `counterexample_skip_prefix`,
+`counterexample_root_not_found`.  What stands in for the proof in the open region is the
+reference-traversal oracle over the real code (streams `loader`, `requestor`, `exchange`; every
+2-colouring of small DAGs in the thorough tier).
 -/
 
 end GS.C02
